@@ -194,9 +194,11 @@ def gen_chain(rng):
   W = rng.choice([8, 12, 16]); a = rng.randrange(0, W - 2); b = rng.randrange(a + 1, W + 1 if a else W)
   n = rng.randrange(2, 5); w2 = b - a; depth = rng.choice([0, 0, 1, 2])
   inner = rng.choice(["dbg-slice", "dbg-slice", "wire-slice", "none"])
+  bb = rng.random() < 0.35          # the bounds of the slices are given as Bits constants ( s.x[LO:HI], LO = Bits8(a) )
+  A, B = (f"Bits8({a})", f"Bits8({b})") if bb else (a, b)
   L = ["from pymtl3 import *", "class PE(Component):", "  def construct(s):",
-       f"    s.in_ = InPort({W}); s.out = OutPort({w2}); s.dbg = OutPort({W}); s.aux = Wire({W})",
-       "    @update", "    def up():", f"      s.out @= s.in_[{a}:{b}] + 1"]
+       f"    s.in_ = InPort({W}); s.out = OutPort({w2}); s.dbg = OutPort({W}); s.aux = Wire({W})"] + ([f"    LO = {A}; HI = {B}"] if bb else []) + [
+       "    @update", "    def up():", f"      s.out @= s.in_[{'LO:HI' if bb else f'{a}:{b}'}] + 1"]
   if inner == "dbg-slice": L.append(f"    s.dbg[{a}:{b}] //= s.out")
   else: L.append(f"    s.dbg[{a}:{b}] //= 0")
   if a: L.append(f"    s.dbg[0:{a}] //= 0")
@@ -207,7 +209,7 @@ def gen_chain(rng):
         f"    s.pe = [PE() for _ in range({n})]"]
   conns = ["s.pe[0].in_ //= s.in_"]
   for i in range(n - 1):
-    conns.append(f"s.pe[{i + 1}].in_[{a}:{b}] //= s.pe[{i}].out" if rng.random() < 0.7 else f"connect(s.pe[{i}].out, s.pe[{i + 1}].in_[{a}:{b}])")
+    conns.append(f"s.pe[{i + 1}].in_[{A}:{B}] //= s.pe[{i}].out" if rng.random() < 0.7 else f"connect(s.pe[{i}].out, s.pe[{i + 1}].in_[{A}:{B}])")
     if a: conns.append(f"s.pe[{i + 1}].in_[0:{a}] //= s.in_[0:{a}]")
     if b < W: conns.append(f"s.pe[{i + 1}].in_[{b}:{W}] //= s.in_[{b}:{W}]")
   conns += [f"s.out //= s.pe[{n - 1}].dbg", f"s.last //= s.pe[{n - 1}].out"]
@@ -219,7 +221,7 @@ def gen_chain(rng):
           f"    s.r = {prev}()", "    s.r.in_ //= s.in_; s.out //= s.r.out; s.last //= s.r.last"]
     prev = f"Wrap{d}"
   L += [f"CTop = {prev}"]
-  return "\n".join(L) + "\n", {"n": n, "W": W, "a": a, "b": b, "depth": depth, "inner_member": inner}
+  return "\n".join(L) + "\n", {"n": n, "W": W, "a": a, "b": b, "depth": depth, "inner_member": inner, "bits_bounds": bb}
 
 
 def run_chain(sh, case):
@@ -254,6 +256,7 @@ def run_chain(sh, case):
                        top_in_reads_back=hex(int(top.in_)), design_source=src), case=("chain", case)); return
         top.sim_tick()
     sh.count("sibling_chain_designs"); sh.fp("chain", tuple(sorted(info.items())))
+    if info["bits_bounds"]: sh.count("sibling_chain_designs_with_bits_typed_bounds")
   finally:
     G.unload(mod)
 
